@@ -969,6 +969,208 @@ def k_fowidth( ctx ):
             res.ok( src, branch, 'Forward Open request, %s, supplied service %s: %s' % ( ', '.join( '%s=%s' % kv for kv in zip( inputs, bits )), '0x%02x' % svc if svc is not None else None, what ))
         res.ok( src, branch, 'Forward Open request: %d cells ( %s x service None/0x%02x/0x%02x ), %d reach the emission, all with ( service == 0x%02x ) == 32-bit NCP words' % (
             cells, ' x '.join( inputs ), SCODE, LCODE, len( reached ), LCODE ), nontrivial=False )
+    # parser side: the grammar of each service knows its size class ( Connection_decode( ..., large=False / True )); the decoder hands THAT to
+    # defaults.Connection - a class guessed from the value ( NCP > 0xFFFF ) reads a Large Forward Open whose upper NCP bits are clear ( Null
+    # connection type, fixed, low priority ) with the 16-bit field layout
+    cdc = src.get( 'Connection_decode', required=False )
+    if cdc is None:
+        raise AnalysisError( 'K-FOWIDTH: class Connection_decode not found' )
+    ini = src.get( 'Connection_decode.__init__' ); exe = src.get( 'Connection_decode.execute' )
+    kept = [ dotted( a_.targets[0] ) for a_ in walk_no_nested( ini ) if isinstance( a_, ast.Assign ) and 'large' in names_in( a_.value ) and dotted( a_.targets[0] ) and dotted( a_.targets[0] ).startswith( 'self.' ) ]
+    calls = [ c_ for c_ in ast.walk( exe ) if is_call_to( c_, 'defaults.Connection', 'Connection' ) ]
+    if not kept or not calls:
+        raise AnalysisError( 'K-FOWIDTH: Connection_decode does not keep its large flag / does not build a defaults.Connection' )
+    for c_ in calls:
+        handed = any( k_.arg == 'large' and dotted( k_.value ) in kept for k_ in c_.keywords ) \
+            or any( k_.arg is None and any( isinstance( x_, ast.keyword ) and x_.arg == 'large' and dotted( x_.value ) in kept for x_ in ast.walk( k_.value )) for k_ in c_.keywords )
+        if handed:
+            res.ok( src, c_, 'Connection_decode decodes the NCP with the size class of the service it parses ( large=%s )' % kept[0] )
+        else:
+            res.bad( src, c_, 'Connection_decode.execute builds %s without its size class ( %s is kept but not used )' % ( norm_text( c_ )[:60], kept[0] ),
+                     'the class is guessed from the value: a Large Forward Open ( 0x5B ) whose 32-bit NCP has its upper bits clear is decoded as a 16-bit NCP - other size, type and priority - and producing the parsed request again raises', func='Connection_decode.execute' )
+    return res
+
+
+@rule( 'L-FRESH', props=( 'C01', 'C14' ), floor=8 )
+def l_fresh( ctx ):
+    """what a produce() emits for one element of a repetition is computed for THAT element: inside every loop of a produce(), a local that is
+    assigned in the loop is assigned on every path of the iteration before it is read (CFG reachability from the loop body's entry to the
+    read, avoiding the assignments, not crossing the back edge).  Accumulators - a local read only by its own re-assignment ( x = x + ... )
+    or only ever augmented - are loop-carried by design."""
+    res = Result( 'L-FRESH' )
+    n_loops = 0
+    def within( src, node, loop ):
+        return any( a is loop for a in src.ancestors( node ))
+    for rel in ( 'server/enip/parser.py', 'server/enip/device.py', 'server/enip/logix.py' ):
+        src = ctx.src( rel )
+        for qn, defs in sorted( src.defs.items()):
+            if qn.split( '.' )[-1] != 'produce':
+                continue
+            for fn in defs:
+                if not isinstance( fn, ast.FunctionDef ):
+                    continue
+                loops = [ l for l in walk_no_nested( fn ) if isinstance( l, ( ast.For, ast.While )) ]
+                if not loops:
+                    continue
+                cfg = CFG( fn )
+                for loop in loops:
+                    n_loops += 1
+                    h = cfg.node_of( loop )
+                    first = [ m for m, l in cfg.succ[h] if l == 'true' ]
+                    if not first:
+                        continue
+                    targets = { t.id for t in ast.walk( loop.target ) if isinstance( t, ast.Name ) } if isinstance( loop, ast.For ) else set()
+                    assigned = {}
+                    for n in cfg.nodes:
+                        if n.kind in ( 'stmt', 'for' ) and n.stmt is not None and n.stmt is not loop and within( src, n.stmt, loop ):
+                            tgts = n.stmt.targets if isinstance( n.stmt, ast.Assign ) else [ n.stmt.target ] if isinstance( n.stmt, ast.For ) and n.kind == 'for' else []
+                            for tg in tgts:
+                                for t in ast.walk( tg ):
+                                    if isinstance( t, ast.Name ) and isinstance( t.ctx, ast.Store ):
+                                        assigned.setdefault( t.id, [] ).append( n )
+                    bad = False
+                    for v, ass in sorted( assigned.items()):
+                        if v in targets:
+                            continue
+                        reach = cfg.reachable( first[0], avoid=set( ass ), edge_ok=lambda a, b, l: b is not h )
+                        for n in cfg.nodes:
+                            own = n.own()
+                            if own is None or n.stmt is None or n in ass or n not in reach or not ( within( src, n.stmt, loop ) or n.stmt is loop ):
+                                continue
+                            if n.kind == 'for' and n.stmt is loop:
+                                continue
+                            if any( isinstance( x, ast.Name ) and x.id == v and isinstance( x.ctx, ast.Load ) for x in ast.walk( own )):
+                                bad = True
+                                res.bad( src, n.stmt, '%s: %r is read ( %s ) on a path of the iteration that has not assigned it' % ( qn, v, norm_text( own )[:70] ),
+                                         'the element is emitted with the value computed for the PREVIOUS element of the repetition ( e.g. an empty CPF item re-emits the length and bytes of the item before it ): the produced message no longer parses back to the same content', func=qn )
+                                break
+                    if not bad:
+                        res.ok( src, loop, '%s: every local assigned in the loop at line %d is assigned before it is read in each iteration (accumulators excepted)' % ( qn, loop.lineno ))
+    if n_loops < 8:
+        raise AnalysisError( 'L-FRESH: only %d loops found in produce() functions' % n_loops )
+    return res
+
+
+@rule( 'L-PADSIZE', props=( 'C01', 'C14' ), floor=2 )
+def l_padsize( ctx ):
+    """a size field that counts the WORDS of a payload which is padded to even length ( if len( x ) % 2: x += b'\x00' ) is computed from the
+    padded payload: on the CFG the pad is never reachable from the size computation ( size = len( x ) // 2 ) - computed first, an odd
+    payload is announced one word short and the parser, limited to size * 2 bytes, leaves its last word (or all of a single byte) behind"""
+    res = Result( 'L-PADSIZE' )
+    n = 0
+    for rel in ( 'server/enip/device.py', 'server/enip/parser.py', 'server/enip/logix.py' ):
+        src = ctx.src( rel )
+        for qn, defs in sorted( src.defs.items()):
+            if qn.split( '.' )[-1] != 'produce':
+                continue
+            for fn in defs:
+                if not isinstance( fn, ast.FunctionDef ):
+                    continue
+                pads = []
+                for i in walk_no_nested( fn ):
+                    if isinstance( i, ast.If ):
+                        m = pmatch( i.test, 'len( _x ) % 2' )
+                        if m is None:
+                            continue
+                        X = dotted( m['_x'] )
+                        for b in i.body:
+                            if isinstance( b, ast.AugAssign ) and isinstance( b.op, ast.Add ) and dotted( b.target ) == X and X is not None:
+                                pads.append(( X, b ))
+                if not pads:
+                    continue
+                cfg = None
+                for X, pad in pads:
+                    sizes = [ a for a in walk_no_nested( fn ) if isinstance( a, ast.Assign ) and pmatch( a.value, 'len( %s ) // 2' % X ) is not None ]
+                    if not sizes:
+                        continue
+                    n += 1
+                    cfg = cfg or CFG( fn )
+                    pn = [ c for c in cfg.nodes if c.kind == 'stmt' and c.stmt is pad ]
+                    bad = False
+                    for a in sizes:
+                        an = [ c for c in cfg.nodes if c.kind == 'stmt' and c.stmt is a ]
+                        if any( p_ in cfg.reachable( an ) for p_ in pn ):
+                            bad = True
+                            res.bad( src, a, '%s: %s is computed before %s is padded to even length' % ( qn, norm_text( a ), X ),
+                                     'an odd number of payload bytes is announced one word short ( a single byte: 0 words ): the parser, limited to size * 2 bytes, leaves the last word of the data unconsumed', func=qn )
+                    if not bad:
+                        res.ok( src, sizes[0], '%s: the word count of %s is taken after the pad byte has been appended' % ( qn, X ))
+    if n < 2:
+        raise AnalysisError( 'L-PADSIZE: pad + word-count pairs not found (%d)' % n )
+    return res
+
+
+@rule( 'L-TEXTCODEC', props=( 'C01', 'C14', 'C05' ), floor=4 )
+def l_textcodec( ctx ):
+    """text fields: the character set a codec class ENCODES with in its producer is the one its parser DECODES with ( decode='...' of the
+    string sub-machine ) - per class, the sets of codec names on the two sides are equal.  A producer that encodes with a wider codec
+    ( utf-8 ) emits more bytes than characters for every symbol above 0x7F: the stored text comes back different and longer, and a
+    counted string ( SSTRING < 256 ) can no longer be produced at all"""
+    res = Result( 'L-TEXTCODEC' )
+    n = 0
+    for rel in ( 'server/enip/parser.py', 'server/enip/device.py', 'server/enip/logix.py' ):
+        src = ctx.src( rel )
+        for cd in ast.walk( src.tree ):
+            if not isinstance( cd, ast.ClassDef ):
+                continue
+            decs, encs = {}, {}
+            for c in ast.walk( cd ):
+                if not isinstance( c, ast.Call ):
+                    continue
+                for k in c.keywords:
+                    if k.arg == 'decode' and isinstance( k.value, ast.Constant ) and isinstance( k.value.value, str ):
+                        decs.setdefault( k.value.value.lower(), c )
+                if isinstance( c.func, ast.Attribute ) and c.func.attr == 'encode' and c.args and isinstance( c.args[0], ast.Constant ) and isinstance( c.args[0].value, str ):
+                    encs.setdefault( c.args[0].value.lower(), c )
+            if not decs or not encs:
+                continue
+            n += 1
+            if set( decs ) == set( encs ):
+                res.ok( src, cd, '%s: text is produced with .encode( %s ) and parsed with decode=%s' % ( cd.name, sorted( encs ), sorted( decs )))
+            else:
+                odd = sorted( set( encs ) - set( decs )) or sorted( set( decs ) - set( encs ))
+                site = encs.get( odd[0] ) or decs.get( odd[0] )
+                res.bad( src, site, '%s produces text with %s but parses it with %s' % ( cd.name, sorted( encs ), sorted( decs )),
+                         'every symbol above 0x7F is written with one codec and read back with another: an acknowledged write of such text reads back as a different, longer value, and a counted string near its maximum length cannot be produced any more (the read fails)', func=cd.name )
+    if n < 4:
+        raise AnalysisError( 'L-TEXTCODEC: only %d classes with both an encoder and a decoder found' % n )
+    return res
+
+
+@rule( 'T-TYPEDLOOP', props=( 'C01', 'C04', 'C05', 'C14' ), floor=10 )
+def t_typedloop( ctx ):
+    """typed_data: every element loop is CLOSED on its own type: for each loop head  <d>[True] = <p> = TYPE()  the collector behind the element,
+    <p>[None] = move_if( ..., source='.TYPE', ..., state=<s> ), takes what TYPE parsed ( source names TYPE ) and returns to the SAME head
+    ( <s> is <d> ).  A collector that returns to another type's head parses the first element with one type and every later element of the
+    array with the other ( ULINT data re-read as LINT: values with the top bit set come back negative, and cannot be read back once stored )."""
+    res = Result( 'T-TYPEDLOOP' )
+    src = ctx.src( 'server/enip/parser.py' )
+    fn = src.get( 'typed_data.__init__' )
+    heads = {}		# parser local -> ( head local, TYPE name, stmt )
+    for a in walk_no_nested( fn ):
+        if isinstance( a, ast.Assign ) and len( a.targets ) == 2 and isinstance( a.value, ast.Call ) and isinstance( a.value.func, ast.Name ):
+            t0, t1 = a.targets
+            if isinstance( t0, ast.Subscript ) and isinstance( t0.value, ast.Name ) and try_fold( t0.slice, default='?' ) is True and isinstance( t1, ast.Name ):
+                heads[t1.id] = ( t0.value.id, a.value.func.id, a )
+    n = 0
+    for a in walk_no_nested( fn ):
+        if isinstance( a, ast.Assign ) and len( a.targets ) == 1 and isinstance( a.targets[0], ast.Subscript ) and isinstance( a.targets[0].value, ast.Name ) \
+           and a.targets[0].value.id in heads and is_call_to( a.value, 'move_if' ) and try_fold( a.targets[0].slice, default='?' ) is None:
+            P = a.targets[0].value.id
+            D, T, hs = heads[P]
+            kw = { k.arg: k.value for k in a.value.keywords }
+            srcv = try_fold( kw.get( 'source' ), default=None ) if 'source' in kw else None
+            st = dotted( kw.get( 'state' )) if 'state' in kw else None
+            if 'state' not in kw:
+                continue			# an intermediate mover of a chain ( [S]STRING: .string moved up first ); the chain's last mover closes the loop
+            n += 1
+            if st == D and isinstance( srcv, str ) and srcv.lstrip( '.' ).split( '.' )[0] == T:
+                res.ok( src, a, 'typed_data: the %s loop is closed: %s collects %s and returns to %s' % ( T, P, srcv, D ))
+            else:
+                res.bad( src, a, 'typed_data: the collector behind %s() takes %r and returns to %s (loop head: %s)' % ( T, srcv, st, D ),
+                         'the first element of an array is parsed as %s, every later one by the loop it was sent to: e.g. ULINT data continued as LINT comes back negative for values with the top bit set - a fragment of two or more elements is reassembled wrong, and a written value cannot be read back' % T )
+    if n < 10:
+        raise AnalysisError( 'typed_data.__init__: only %d element loops recognised' % n )
     return res
 
 
